@@ -134,6 +134,10 @@ func Run(a Matrix, args ...interface{}) (Matrix, Matrix, error) {
   if computeU {
     if inSitu.U == nil {
       inSitu.U = NullDenseMatrix(t, n, n)
+    } else {
+      if n1, m1 := inSitu.U.Dims(); n1 != n || m1 != n {
+        return nil, nil, fmt.Errorf("U has invalid dimension (%dx%d instead of %dx%d)", n1, m1, n, n)
+      }
     }
     inSitu.U.SetIdentity()
   } else {
